@@ -37,6 +37,10 @@ func init() {
 	regExtern(pre+"JSON", "gin.Context.JSON(code, obj): writes a response with that status and a body (ghostHttpStatus, ghostHttpBody)", respond(true))
 	regExtern(pre+"String", "gin.Context.String(code, ...): writes a response with that status and a body", respond(true))
 	regExtern(pre+"Data", "gin.Context.Data(code, ...): writes a response with that status and a body", respond(true))
+	for _, m := range []string{"JSON", "String", "Data", "Status"} {
+		// the ghost response state (an int and a bool global of the package under verification)
+		externWrites[pre+m] = []string{hCompName(types.Typ[types.Int], 0), hCompName(types.Typ[types.Bool], 0)}
+	}
 	regExtern(pre+"Status", "gin.Context.Status(code): sets the status of a response without body", respond(false))
 	regExtern(pre+"Header", "gin.Context.Header: no effect on modelled state", pureOpaque)
 	regExtern(pre+"Param", "gin.Context.Param: an arbitrary string", pureOpaque)
@@ -269,5 +273,23 @@ func init() {
 			tag := Const(typeTag(types.Universe.Lookup("error").Type())+1004, 64)
 			pay := Fresh("oauth.err", BV64)
 			return VIface{Ite(rej, tag, C64(0)), Ite(rej, pay, C64(0))}, pc
+		})
+}
+
+func init() {
+	regExtern("github.com/free5gc/openapi.Deserialize", "openapi.Deserialize(&v, body, contentType): *v becomes an arbitrary well-typed value (any member may be absent: pointers may be nil); any error result",
+		func(ex *Exec, fr *Frame, st *State, pc *Term, fn *ssa.Function, args []Value, pos token.Pos) (Value, *Term) {
+			d := args[0].(VIface)
+			if !d.Tag.IsConst() {
+				panic(unsupported("Deserialize into a statically unknown type"))
+			}
+			pt, ok := under(tagTypes[d.Tag.Val]).(*types.Pointer)
+			if !ok {
+				panic(unsupported("Deserialize into a non-pointer"))
+			}
+			v := freshValue(pt.Elem(), "deserialize")
+			ex.assumeWF(st, pc, v)
+			ex.storeObj(st, pt.Elem(), d.Pay, v)
+			return VIface{Fresh("deserialize.err", BV64), Fresh("deserialize.errp", BV64)}, pc
 		})
 }
